@@ -85,7 +85,7 @@ def check(rep, prop, tier, seed):
     rep.cov.update(evaluations=nsyms + (8 * (40000 if thorough else 4000)), distinct_nontrivial=nst + 8,
                    rule="every object with static storage duration found by the translator (%d, all must be const) cross-checked with the %d defined symbols "
                         "of a shared object built from the tree (none may live in .data/.bss); 8 threads x real get/set/init histories on private buffers "
-                        "plus shared read-only PDU under ThreadSanitizer, compared with each thread run alone" % (nst, nsyms),
+                        "plus shared read-only PDU, then PDUs of different threads packed back to back at exactly their header length, then all threads encoding the same read-only VSS source arrays, under ThreadSanitizer, each compared with the sequential result" % (nst, nsyms),
                    statics=nst, failed_atoms=["%s:%s" % x for x in res["failed_atoms"]])
     rep.cov["samples"] = [{"static": res["gen"]["files"][0]["statics"][:1]}, {"tsan": out.strip()[-120:]},
                           {"theorem": "schedule_independent: ∀ schedules zs, ∀ thread t, region R t after runSched zs = after t's own steps alone"}]
